@@ -101,12 +101,15 @@ def matrix(tier, rnd):
     tcases = [("quit", "idle"), ("kill", "update"), ("cancel", "view"), ("interrupt", "idle"), ("panic", "init"), ("panic", "update"), ("panic", "view"), ("cmdpanic", "idle")]
     for k, (cause, point) in enumerate(tcases if tier == "quick" else tcases * 4):
         o = rand_opts(rnd)
-        x = P.lifecycle_scenario(0, cause, point, "none", opts=o, inp_override={"kind": "tty"}, isolate=True)
+        # every second history hands the terminal to an external command first (one that fails, one that succeeds)
+        hist = [[], [P.B("exec", cb=True, ok=False)], [], [P.B("exec", cb=False, ok=True), P.B("exec", cb=True, ok=False)]][k % 4] if point != "init" else []
+        x = P.lifecycle_scenario(0, cause, point, "none", opts=o, inp_override={"kind": "tty"}, isolate=True, modes_history=hist)
         if x:
             x[0]["ctty"] = True
             x[1]["termios"] = "input-tty"
             add(x)
-        x = P.lifecycle_scenario(0, cause, point, "none", opts=o, inp_override={"kind": "ptyin"})
+        hist = [[P.B("exec", cb=True, ok=False)], [], [P.B("exec", cb=False, ok=True), P.B("exec", cb=True, ok=False)], []][k % 4] if point != "init" else []
+        x = P.lifecycle_scenario(0, cause, point, "none", opts=o, inp_override={"kind": "ptyin"}, modes_history=hist)
         if x:
             x[1]["termios"] = "pty"
             add(x)
